@@ -81,7 +81,7 @@ def specs():
         pre=lambda S, hi, lo: min_le(hi, lo),
         post={'same_or_lo_passes': lambda S, hi, lo, r_hi, r_lo: z3.Or(S.teq(r_hi, r_lo), S.ge(S.CR(r_lo, lo.bg_rgb), lo.min_contrast))},
         lo_only=lambda S, lo, r_lo: S.ge(S.CR(r_lo, lo.bg_rgb), lo.min_contrast),
-        loops={'delta_e_sequence': {'rel': lambda S, sh, sl, hi, lo, k: {
+        loops={'delta_e_sequence': {'pos': 0, 'rel': lambda S, sh, sl, hi, lo, k: {
             'same_candidate': veq(sh.best_candidate, sl.best_candidate), 'same_contrast': veq(sh.best_contrast, sl.best_contrast),
             'same_delta_e': veq(sh.best_delta_e, sl.best_delta_e)}}},
         props={'*': ['C16']},
@@ -92,12 +92,12 @@ def specs():
                 callee_rel={'generate_accessible_color': rel_gen}, props={'*': ['C16']}))
     add(RelSpec(f'{M}:_strategy_recursive', shared=STRAT_SHARED, differing={'min_contrast': 'real'},
                 pre=lambda S, hi, lo: min_le(hi, lo), post={'very_readable_implies_readable': flag_implies}, lo_only=lo_flag,
-                loops={'range(max_iterations)': {'rel': lambda S, sh, sl, hi, lo, k: {'same_colour': veq(sh.current_rgb, sl.current_rgb)}}},
+                loops={'range(max_iterations)': {'pos': 0, 'rel': lambda S, sh, sl, hi, lo, k: {'same_colour': veq(sh.current_rgb, sl.current_rgb)}}},
                 callee_rel={'generate_accessible_color': rel_gen}, props={'*': ['C16']}))
     add(RelSpec(f'{M}:_strategy_relaxed', shared=STRAT_SHARED, differing={'min_contrast': 'real'},
                 pre=lambda S, hi, lo: min_le(hi, lo), post={'very_readable_implies_readable': flag_implies}, lo_only=lo_flag,
                 loops={'range(max_iterations_extended)': {
-                    'rel': lambda S, sh, sl, hi, lo, k: {'same_colour': veq(sh.opt_a_rgb, sl.opt_a_rgb),
+                    'pos': 0, 'rel': lambda S, sh, sl, hi, lo, k: {'same_colour': veq(sh.opt_a_rgb, sl.opt_a_rgb),
                                                          'flag_implies': z3.Implies(S.b(sh.opt_a_success), S.b(sl.opt_a_success))},
                     'lo_exit_ok': lambda S, sl, lo: S.b(sl.opt_a_success)}},
                 callee_rel={'generate_accessible_color': rel_gen, '_strategy_recursive': rel_strategy}, props={'*': ['C16']}))
